@@ -183,7 +183,76 @@ def corpus_programs(start_idx):
     P.features.add("corpus:named-func-type-identity")
     P.seed, P.known_key = "corpus-c3", "typeswitch:named-func-type-identified-with-underlying"
     out.append(P)
+    # c4 (Go text only): a local array declared in a loop body must not take new stack space on every iteration
+    out.append(gen2.RawProgram(start_idx + 4, '''
+func @P@Loop(n int) int {
+	sum := 0
+	for i := 0; i < n; i++ {
+		var buf [64]int
+		buf[i%64] = i
+		sum += buf[i%64] + buf[(i+1)%64]
+	}
+	return sum
+}
+
+func @P@Main() {
+	println(@P@Loop(1000))
+	println(@P@Loop(3000000))
+}
+
+''', "corpus-c4", "stack:local-in-loop-body-allocates-per-iteration", "corpus:stack-growth-in-loop"))
+    # c5 (Go text only): a local type of a generic function is a different type per instantiation, also inside its closures
+    out.append(gen2.RawProgram(start_idx + 5, '''
+func @P@Mk[X any]() (func(X) any, func(any) bool) {
+	type box struct{ v X }
+	return func(x X) any { return box{x} }, func(a any) bool { _, ok := a.(box); return ok }
+}
+
+func @P@Main() {
+	mkI, isI := @P@Mk[int]()
+	mkS, isS := @P@Mk[string]()
+	println(isI(mkI(1)), isI(mkS("x")), isS(mkS("x")), isS(mkI(1)))
+}
+
+''', "corpus-c5", "generic:local-type-in-closure-shared-across-instantiations", "corpus:generic-local-type"))
     return out
+
+
+def aux_modules(ctx, bench):
+    """corpus programs that need a module of their own.  m1: with `go 1.21` in go.mod the three-clause loop variable is shared
+    by all iterations (per-iteration variables start with go 1.22)"""
+    src = '''package main
+
+func main() {
+	var fs []func() int
+	for i := 0; i < 3; i++ {
+		fs = append(fs, func() int { return i })
+	}
+	for _, f := range fs {
+		println(f())
+	}
+}
+'''
+    n = 0
+    for name, gover, key in [("loopvar-go121", "1.21", "loopvar:go-directive-of-go.mod-ignored")]:
+        d = os.path.join(ctx.scratch, "aux-" + name)
+        write_module(d, {"main.go": src}, gover=gover)
+        if sh(["go", "build", "-o", os.path.join(d, "ref"), "."], cwd=d, env=go_env(), timeout=600).returncode != 0:
+            raise RuntimeError("reference build of the auxiliary module %s failed" % name)
+        o, e, rc = run_prog(os.path.join(d, "ref"), timeout=20)
+        want = norm_real(e, rc)
+        bench.n_llgo_builds += 1
+        p = llgo_build(ctx, d, os.path.join(d, "prog"), "-O0", timeout=1800)
+        if p.returncode != 0:
+            ctx.report("build-failure:aux-" + name, "llgo cannot build the auxiliary module " + name, {"log": (p.stdout + p.stderr)[-2000:], "main.go": src, "go": gover})
+            continue
+        o, e, rc = run_prog(os.path.join(d, "prog"), timeout=20)
+        got = norm_real(e, rc)
+        n += 1
+        if got != want:
+            ctx.report(key, "module with `go %s`: llgo prints %r, the reference toolchain %r" % (gover, got[0], want[0]),
+                       {"go.mod": "module verifprog\n\ngo %s\n" % gover, "main.go": src, "llgo": got, "reference": want})
+    return n
 
 
 # --------------------------------------------------------------------------------------------- building and running
@@ -302,6 +371,8 @@ class Bench:
             return dict(zip([P.idx for P in progs], ex.map(one, progs)))
 
     def model(self, progs):
+        raw = [P for P in progs if getattr(P, "raw", False)]
+        progs = [P for P in progs if not getattr(P, "raw", False)]
         lines = ["run %d %s" % (FUEL, P.lean()) for P in progs]
 
         def limits():
@@ -314,10 +385,14 @@ class Bench:
         res = {}
         for i, P in enumerate(progs):
             res[P.idx] = norm_model(out[i]) if i < len(out) and out[i] else ("", "model-crashed")
+        for P in raw:
+            res[P.idx] = None            # Go text only: no Lean evaluation
         return res
 
 
 def program_text(P, npk):
+    if getattr(P, "raw", False):
+        return P.text
     gen2.relayout(P, npk)
     files = gen2.emit_module([P], npk)
     return "".join("// ---- %s\n%s" % (k, v) for k, v in sorted(files.items()) if not k.startswith("input_"))
@@ -546,6 +621,8 @@ def run_check(ctx, args):
             if want[0].count("\n") >= 5:
                 nontrivial += 1
             got = mod[P.idx]
+            if got is None:
+                continue
             if got[1] == "timeout":
                 stats["skipped_model_out_of_fuel"] += 1
             elif got != want:
@@ -584,6 +661,7 @@ def run_check(ctx, args):
         ctx.report("build-failure:" + hashlib.sha256(text.encode()).hexdigest()[:16],
                    "llgo %s cannot compile a program the reference toolchain accepts (seed %s, %d packages)" % (opt, P.seed, npk),
                    {"seed": P.seed, "packages": npk, "opt": opt, "llgo_output_tail": log, "program": text})
+    stats["aux_modules"] = aux_modules(ctx, bench)
     covb = part_b(ctx, modeld, extra_sources)
     ofsrc = [[os.path.join(ctx.scratch, "orderfix", "corpus.go")], [os.path.join(ctx.scratch, "orderfix", "gen0.go")]]
     covb.update(part_c(ctx, modeld, ctx.c01_harness, extra_sources + ofsrc))
@@ -616,7 +694,8 @@ def run_check(ctx, args):
            "skipped_reference_timeout": stats["skipped_reference_timeout"], "skipped_model_out_of_fuel": stats["skipped_model_out_of_fuel"],
            "llgo_builds": bench.n_llgo_builds,
            "toolchain_crashes": [{"seed": P.seed, "packages": npk, "opt": opt, "log": log[:200]} for (P, npk, opt, log) in bench.toolchain_crashes],
-           "build_failures": len(bench.build_failures), "large_value_programs_O0_only": stats.get("large_value_programs_O0_only", 0)}
+           "build_failures": len(bench.build_failures), "large_value_programs_O0_only": stats.get("large_value_programs_O0_only", 0),
+           "aux_modules": stats.get("aux_modules", 0)}
     cov.update(covb)
     return ctx.finish("translation_validation", cov)
 
@@ -662,7 +741,7 @@ def report_disagreement(ctx, bench, P, npk, opt, got, want):
     ctx.report(key, "llgo %s (%d packages) and the reference toolchain disagree: %s" % (opt, npk, diff),
                {"seed": P.seed, "packages": npk, "opt": opt, "llgo": {"output": got[0][-2000:], "termination": got[1]},
                 "reference": {"output": want[0][-2000:], "termination": want[1]}, "minimiser_tests": tests,
-                "program": text, "lean_program": P.lean(),
+                "program": text, "lean_program": None if getattr(P, "raw", False) else P.lean(),
                 "how": "write the files of `program` into a module `verifprog` (+ harness/c01/gen2.py INPUT_LLGO/INPUT_GO), build with "
                        "`llgo build -tags nogc %s` and with `go build -tags goref`, feed the program index `%d` on stdin" % (opt, P.idx)})
 
